@@ -149,7 +149,15 @@ func main() {
 			mu.Lock()
 			defer mu.Unlock()
 			if rerr != nil {
-				tail := tailFile(lf, 1500)
+				tail := tailFile(lf, 3000)
+				if spec.DeathKey != nil {
+					if key, ok := spec.DeathKey(tail); ok {
+						run := ev.NewRun(id, *tier, *seed, c)
+						run.Violation(key, map[string]any{"log_tail": tail}, "child process of case %d died: %s", c, firstLine(tail))
+						agg.Runs = append(agg.Runs, run)
+						return
+					}
+				}
 				agg.Dead = append(agg.Dead, fmt.Sprintf("case %d: child died without a result (%v): %s", c, werr, tail))
 				return
 			}
@@ -207,6 +215,15 @@ func tailFile(p string, n int) string {
 		bz = bz[len(bz)-n:]
 	}
 	return string(bz)
+}
+
+func firstLine(s string) string {
+	for i := 0; i < len(s); i++ {
+		if s[i] == '\n' {
+			return s[:i]
+		}
+	}
+	return s
 }
 
 func stack() string {
